@@ -676,7 +676,7 @@ pub fn replay(path: &str) -> i32 {
                 1
             }
         }
-        Some(k @ ("c06" | "c06-digest" | "c15" | "c16" | "c18" | "c19" | "c20" | "c20-solve" | "c20-async")) => {
+        Some(k @ ("c06" | "c06-digest" | "c15" | "c16" | "c18" | "c19" | "c20" | "c20-solve" | "c20-async" | "c20-inflight")) => {
             let f = |r: &Value| match k {
                 "c06" | "c06-digest" => crate::e6::replay(r),
                 "c15" => crate::e15::replay(r),
